@@ -30,22 +30,22 @@ CLAIMS = {
                 text='Proof that every partial operation is guarded (no NaN/inf in exact arithmetic), that readiness is monotone, and of the documented warm-up lengths.'),
     'C09': dict(views=['ema', 'laguerre_filter', 'super_smoother', 'roofing_filter', 'cyber_cycle', 'trend_flex', 're_flex', 'laguerre_rsi', 'ehlers_fisher_transform', 'echo'],
                 technique='Verus: coefficient contracts (pole locations / Jury conditions) for every window length, one-step contraction lemmas',
-                text='Proof of the per-step stability facts for symbolic N; the epsilon-N limit statements are not formalised.'),
+                text='Proof of pole locations for symbolic N, one-step contractions, and over whole histories: distance after a common tail of m values == c^m x initial distance with 0 <= c < 1 (Ema, SuperSmoother Lyapunov form, Laguerre first stage, Fisher); Ema BIBO; stream-length independent output bounds of EFT, LaguerreRSI, TrendFlex, ReFlex.'),
     'C10': dict(views=['sma', 'ema', 'alma', 'cumulative', 'laguerre_filter', 'super_smoother', 'roofing_filter', 'cyber_cycle', 'echo'],
                 technique='Verus lemmas: own-step and out are linear maps of (state, input)',
-                text='Proof of one-step superposition lifted to histories by induction.'),
+                text='Proof of one-step superposition and of the induction over whole histories for all eight linear views.'),
     'C11': dict(views=EHLERS + ['echo'], technique='Verus: update refines the difference equations written from the property text; coefficient contracts on constructors',
                 text='Proof that every update equals one step of the stated equations, for all N and inputs.'),
     'C12': dict(views=ALL, technique='Verus lemmas over closed forms / own-step: scale, offset and sign equivariance',
-                text='Proof of invariance lemmas for the views listed in the evidence.'),
+                text='Proof of every clause of the statement at window level and at whole-history level (views over Echo).'),
     'C13': dict(views=['welford_rolling', 'drawdown', 'ln_return', 'echo'], technique='Verus: rolling own-step contracts + history lemmas against batch definitions',
                 text='Proof that the rolling state equals the batch statistic of the whole history.'),
     'C14': dict(views=['add', 'subtract', 'multiply', 'divide', 'tanh', 'gte', 'lte', 'echo', 'constant'], technique='Verus: out is a function of the children\'s current outputs only; Kani loop-free bit-exact proofs for selection/add/sub',
                 text='Proof of pointwise statelessness; bit-exactness by complete loop-free CBMC proofs where cheap.'),
     'C15': dict(views=ALL, technique='Verus built-in safety obligations (index, unwrap, arithmetic overflow/underflow, assert!/debug_assert!) on every extracted function under the representation invariants',
                 text='Proof of panic-freedom for every view, every accepted window length, every input history (in the scalar model).'),
-    'C17': dict(views=ALL, technique='Verus: update is a function of (abstract state, input) by contract; last(&self) has a functional contract over an immutable borrow; structural scan for interior mutability; ownership-based clone independence',
-                text='Proof of determinism and purity; clone independence is structural (owned-data whitelist) - stated, not proved by Verus.'),
+    'C17': dict(views=ALL, technique='Verus: update is a function of (abstract state, input) by contract; last(&self) has a functional contract over an immutable borrow; structural scan for interior mutability; #[derive(Clone)] expanded field-wise (M4) and proved to preserve the abstract state',
+                text='Proof of determinism, purity of last(), and that a derived clone is a view in the same abstract state that continues like the original (Vec/VecDeque::clone of scalars trusted to yield an equal sequence).'),
     'C18': dict(views=ALL, technique='Verus: buffer-length invariants generated for every Vec/VecDeque field found in /repo',
                 text='Proof that every buffer length is bounded by a function of the window length after every update.'),
 }
